@@ -7,7 +7,7 @@ CLAIMS = {
          "channel invariant (Appendix C) is the trusted model of the transport; whole-endpoint runs bounded by window<=3, messages<=3, faults<=4 (fates deliver/drop/duplicate, in the wide runs also an 8 s in-order delay, fault window after 0..3 untouched packets), schedule deviations<=1",
          "solver-based inductive step + bounded symbolic execution of go/ssa with symbolic fault schedule (z3)"),
  "C02": ("inductive step under the ideal-AEAD model: the reader in lock-step is fed every relay edit script of up to 2 segments (symbolic offsets/lengths, flips, junk, reflection); one ReadMessage returns exactly the expected record or an error; lock-step step closes the induction",
-         "ideal AEAD/HKDF (DESIGN 4.6); adversary = edit scripts over honest streams; the inductive step stops at the first error, a separate three-record scenario (one wire segment corrupted / dropped / doubled) reads on after errors",
+         "ideal AEAD/HKDF (DESIGN 4.6); adversary = edit scripts over honest streams; the inductive step stops at the first error, a separate three-record scenario (one wire segment corrupted / dropped / doubled) reads on after errors; a read deadline expiring at every byte position of a record, the rest intact or altered, then reading on",
          "solver-based symbolic execution with idealised crypto; quantifier-free encoding of whole-ciphertext equality over functional byte arrays"),
  "C03": ("real DoHandshake of both parties executed symbolically against each other with arbitrary passphrases / expected keys under the ideal-crypto model: mismatch => responder writes 0 bytes, nobody derives keys",
          "ideal cryptography (DESIGN 4.6) incl. an abstract group model under which the real SPAKE2 masking code (ekeMask/ekeUnmask) is executed; repeated attempts in one process; adversary who knows a key is outside",
@@ -40,10 +40,10 @@ CLAIMS = {
          "bounds: window<=2, 5 close instants, default schedule (+1 deviation and one symbolic packet fate in thorough); Close inside a retransmission with a one-way outage (FIN must still reach the peer, no ticker left running); mailbox connection with stalled relay streams; transport writes that block until their context is cancelled, Close with a retransmission stuck in the write (client or server)",
          "bounded symbolic execution with engine-owned scheduler; leak check on the engine's goroutine/timer tables"),
  "C13": ("keep-alive runs on the virtual clock: transport silenced at symbolic idle offsets with 0..N+1 queued messages must close within ping+pong+slack; a healthy idle pair with latency below the pong timeout survives 10 virtual minutes",
-         "four ping/pong settings, window<=3, default schedule; slack 20 s for boosted resend-sync waits; answer latency chosen per keep-alive cycle (2%, 34%, 99.7% of the pong timeout) for the first 3-4 cycles",
+         "four ping/pong settings, window<=3, default schedule; slack 20 s for boosted resend-sync waits; answer latency chosen per keep-alive cycle (2%, 34%, 99.7% of the pong timeout) for the first 3-4 cycles; stream writes that return only after the answer is back",
          "bounded symbolic execution with discrete-event virtual time"),
  "C14": ("all (length, chunk size) pairs up to the bound with symbolic contents, sequences of two messages, deadlines expiring at every chunk boundary on the virtual clock",
-         "payload<=9, chunk<=10 (thorough), symbolic lengths up to 4 MiB and chunk sizes up to MaxInt in the large/huge harnesses; expired (zero/negative) receive timeouts with both select outcomes; one known finding (Send timing out mid-message) reported as KNOWN-FINDING",
+         "payload<=9, chunk<=10 (thorough), symbolic lengths up to 4 MiB and chunk sizes up to MaxInt in the large/huge harnesses; expired (zero/negative) receive timeouts with both select outcomes; one known finding (Send timing out mid-message) reported as KNOWN-FINDING; receive deadline cleared or changed while a message is half received",
          "solver-based bounded symbolic execution (case split on lengths, symbolic contents)"),
  "C15": ("inductive Read step for NoiseGrpcConn, NoiseConn and connKit from an arbitrary carry-over state with a real record of symbolic length and a symbolic buffer size; writes of symbolic length; zero-length records",
          "ideal AEAD (destination aliasing modelled); carry-over invariant in harness/mailbox/c15.go; read buffers are windows of larger allocations and are overwritten after Read; writes across a transport timeout on NoiseGrpcConn (quick) and NoiseConn (thorough only: 1-2 min of solver time); stream contents compared at symbolic witness indices",
